@@ -369,6 +369,7 @@ func stateLeaderValue(c *Ctx) int64 {
 
 func C25(c *Ctx) {
 	c.Note("scan requests sent through ProposeCommand are not trimmed (only the read path trims; the gRPC service routes scans to ReadCommand); keys reached through PrewriteRequest.PrimaryLock are deliberately not range-checked (the primary may live in another region)")
+	applyTimeAdmission(c, "K1.validation-at-apply")
 	const r1 = "K1.validation-on-accept-path"
 	c.Rule(r1, "Store.validateCommand hands out a peer only after validateRegionEpoch()==nil and validateRequestKeys()==nil; validateRegionEpoch compares both ConfVer and Version for inequality; a missing epoch is rejected")
 	if fn := c.Fn("raftstore/store", "Store.validateCommand"); fn != nil {
@@ -904,4 +905,150 @@ func boolValueEdges(fn *ssa.Function, v ssa.Value, val bool) edgeSet {
 		}
 	}
 	return out
+}
+
+// applyTimeAdmission (C25): the epoch and key-range checks made when a command is proposed can be
+// outdated when it executes (a split or merge logged before it has applied in between).  The
+// apply loop must therefore ask again: the applier call of commandPipeline.applyEntries lies
+// behind a nil answer of an admission function that the store wires to a function reaching
+// validateRegionEpoch and validateRequestKeys; and the peer's Ready handler executes entries in
+// log order (pending normal entries are applied before a following admin / conf-change entry).
+func applyTimeAdmission(c *Ctx, rule string) {
+	c.Rule(rule, "raftstore/store.commandPipeline.applyEntries calls the applier only behind a nil answer of commandPipeline.admit (or when no admission is wired); the Store constructor wires admit to a function that reaches validateRegionEpoch and validateRequestKeys; Peer.handleReady applies the normal entries collected so far before it applies an admin or configuration-change entry")
+	const pkg = "raftstore/store"
+	if fn := c.Fn(pkg, "commandPipeline.applyEntries"); fn != nil {
+		var applies, admits []ssa.CallInstruction
+		AllInstrs(fn, false, func(in ssa.Instruction) {
+			call, ok := in.(*ssa.Call)
+			if !ok || call.Call.IsInvoke() {
+				return
+			}
+			switch {
+			case isFieldLoad(call.Call.Value, pkg+".commandPipeline", "applier"):
+				applies = append(applies, call)
+			case isFieldLoad(call.Call.Value, pkg+".commandPipeline", "admit"):
+				admits = append(admits, call)
+			}
+		})
+		c.Decide(len(applies) >= 1, rule, key(fn, "has:applier-call"), fn.Pos(), len(applies)+1, "apply site found", "cannot find the applier call in applyEntries")
+		for i, a := range applies {
+			k := key(fn, fmt.Sprintf("applier[%d]<-nil(admit)", i+1))
+			if len(admits) == 0 {
+				c.Fail(rule, k, a.Pos(), 1, "applyEntries executes a committed command without asking whether the region still owns it: a command validated at proposal time runs against a region whose range and epoch a split or merge logged before it has since changed (a prewrite for a key the region handed to its child takes effect, no EpochNotMatch)")
+				continue
+			}
+			// reachable from an admission call only across the nil edge of its result
+			bad := false
+			for _, ad := range admits {
+				cut := map[[2]*ssa.BasicBlock]bool{}
+				for _, e := range NilEdges(fn, FlowSet(ad.Value())) {
+					cut[e.Nil] = true
+				}
+				// (a later entry of the batch is a new question: asking again, or the `no admission
+				// wired` edge, ends the path that belongs to this answer)
+				for e := range nilFieldEdges(fn, pkg+".commandPipeline", "admit") {
+					cut[e] = true
+				}
+				if r, _ := CutReach(fn, ad.(ssa.Instruction), a.(ssa.Instruction), instrs(admits), cut); r {
+					bad = true
+				}
+			}
+			pre, n := CutReach(fn, nil, a.(ssa.Instruction), instrs(admits), map[[2]*ssa.BasicBlock]bool(nilFieldEdges(fn, pkg+".commandPipeline", "admit")))
+			c.Decide(!bad && !pre, rule, k, a.Pos(), n+len(admits), "the command runs only when the apply-time admission found no region error", "the applier is reachable although the apply-time admission reported a region error (or without asking it)")
+		}
+	}
+	// wiring: some store function assigns commandPipeline.admit a function reaching both validators
+	wired := false
+	for _, f := range c.P.ModFuncs {
+		if !strings.HasSuffix(FuncPkgPath(f), "/"+pkg) {
+			continue
+		}
+		for _, st := range fieldStoresIn(f, false, pkg+".commandPipeline", "admit") {
+			sv, ok := st.(*ssa.Store)
+			if !ok {
+				continue
+			}
+			var target *ssa.Function
+			switch x := sv.Val.(type) {
+			case *ssa.MakeClosure:
+				target, _ = x.Fn.(*ssa.Function)
+			case *ssa.Function:
+				target = x
+			}
+			if target == nil {
+				continue
+			}
+			reach := c.P.Reach([]*ssa.Function{target}, nil)
+			e, k := false, false
+			for g := range reach {
+				switch FuncName(g) {
+				case pkg + ".validateRegionEpoch":
+					e = true
+				case pkg + ".validateRequestKeys":
+					k = true
+				}
+			}
+			if e && k {
+				wired = true
+				c.Touch(target)
+			}
+		}
+	}
+	c.Decide(wired, rule, pkg+".commandPipeline.admit#wired-to-epoch+key-validation", token.NoPos, 2, "the store wires the apply-time admission to validateRegionEpoch and validateRequestKeys", "no store function wires commandPipeline.admit to a function that reaches validateRegionEpoch and validateRequestKeys: committed commands execute without an apply-time region check")
+	// log order in the Ready handler
+	if fn := c.Fn("raftstore/peer", "Peer.handleReady"); fn != nil {
+		isApplyCall := func(f *ssa.Function) bool {
+			found := false
+			AllInstrs(f, false, func(in ssa.Instruction) {
+				if call, ok := in.(*ssa.Call); ok && !call.Call.IsInvoke() && isFieldLoad(call.Call.Value, "raftstore/peer.Peer", "apply") {
+					found = true
+				}
+			})
+			return found
+		}
+		var flushes, admins, appends []ssa.Instruction
+		AllInstrs(fn, false, func(in ssa.Instruction) {
+			call, ok := in.(*ssa.Call)
+			if !ok {
+				return
+			}
+			if !call.Call.IsInvoke() && isFieldLoad(call.Call.Value, "raftstore/peer.Peer", "apply") {
+				flushes = append(flushes, in)
+				return
+			}
+			if mc, ok := call.Call.Value.(*ssa.MakeClosure); ok {
+				if f, ok := mc.Fn.(*ssa.Function); ok && isApplyCall(f) {
+					flushes = append(flushes, in)
+					return
+				}
+			}
+			if f := StaticFn(call.Common()); f != nil {
+				switch FuncName(f) {
+				case "(*raftstore/peer.Peer).applyAdminCommand", "(*raftstore/peer.Peer).handleConfChange":
+					admins = append(admins, in)
+				}
+				if f.Blocks != nil && FuncPkgPath(f) == FuncPkgPath(fn) && isApplyCall(f) {
+					flushes = append(flushes, in)
+				}
+			}
+			if bi, ok := call.Call.Value.(*ssa.Builtin); ok && bi.Name() == "append" && strings.Contains(call.Type().String(), "Entry") {
+				appends = append(appends, in)
+			}
+		})
+		// appends made inside the flushing closure's parent only; appends may also live in closures
+		c.Decide(len(admins) >= 1 && len(flushes) >= 1, rule, key(fn, "has:admin+apply-sites"), fn.Pos(), len(admins)+len(flushes)+1, "admin/conf-change sites and the apply call found", "cannot find the admin apply sites and the normal apply call in handleReady")
+		for i, ad := range admins {
+			bad := false
+			n := 0
+			for _, ap := range appends {
+				r, m := CutReach(fn, ap, ad, flushes, nil)
+				n += m
+				if r {
+					bad = true
+				}
+			}
+			c.Decide(!bad, rule, key(fn, fmt.Sprintf("admin-apply[%d]<-pending-normal-entries-applied", i+1)), ad.Pos(), n+1, "entries logged before an admin / conf-change entry are executed before it",
+				"an admin or configuration-change entry is applied while normal entries that precede it in the log are still waiting in the batch: a command logged before a split executes after it (replicas whose Ready batches differ disagree)")
+		}
+	}
 }
